@@ -90,7 +90,10 @@ func (t *treePipeline) outputProgrammably(w io.Writer, root *Node, cfg *config) 
 	rootStream := make(chan *Node)
 	go func() {
 		defer close(rootStream)
-		rootStream <- root
+		select {
+		case rootStream <- root:
+		case <-ctx.Done():
+		}
 	}()
 	growStream, errcg := t.grower.grow(ctx, rootStream)
 	errcs := t.spreader.spread(ctx, w, growStream)
@@ -120,7 +123,10 @@ func (t *treePipeline) mkdirProgrammably(root *Node, cfg *config) error {
 	rootStream := make(chan *Node)
 	go func() {
 		defer close(rootStream)
-		rootStream <- root
+		select {
+		case rootStream <- root:
+		case <-ctx.Done():
+		}
 	}()
 	t.grower.enableValidation()
 	// when detect invalid node name, return error. process end.
@@ -154,7 +160,10 @@ func (t *treePipeline) verifyProgrammably(root *Node, cfg *config) error {
 	rootStream := make(chan *Node)
 	go func() {
 		defer close(rootStream)
-		rootStream <- root
+		select {
+		case rootStream <- root:
+		case <-ctx.Done():
+		}
 	}()
 	t.grower.enableValidation()
 	// when detect invalid node name, return error. process end.
@@ -182,7 +191,10 @@ func (t *treePipeline) walkProgrammably(root *Node, callback func(*WalkerNode) e
 	rootStream := make(chan *Node)
 	go func() {
 		defer close(rootStream)
-		rootStream <- root
+		select {
+		case rootStream <- root:
+		case <-ctx.Done():
+		}
 	}()
 	growStream, errcg := t.grower.grow(ctx, rootStream)
 	errcw := t.walker.walk(ctx, growStream, callback)
